@@ -86,8 +86,11 @@ abbrev Manifest := List Nat
 abbrev Store := List (Nat × Sketch)
 
 def Store.load (s : Store) (loc : Nat) : Option Sketch := (s.find? (fun p => p.1 == loc)).map (·.2)
-/-- `put_cf`: later reads of `loc` see `v`, every other location is unchanged -/
-def Store.put (s : Store) (loc : Nat) (v : Sketch) : Store := (loc, v) :: s.filter (fun p => p.1 != loc)
+/-- `put_cf`: later reads of `loc` see `v` (the newest entry shadows older ones), every other
+location is unchanged -/
+def Store.put (s : Store) (loc : Nat) (v : Sketch) : Store := (loc, v) :: s
+/-- the keys present, strictly increasing -/
+def Store.keys (s : Store) : List Nat := union [] (s.map (·.1))
 
 structure Disk where
   /-- graph of HASHES, strictly increasing in (hash, id) -/
@@ -214,26 +217,35 @@ def updateLog (h : Handle) (c : Coll) (sp : Spec) : Option (List Write) :=
 /-- the world outside the index: the signature files -/
 abbrev World := Store
 
+/-- `collection.storage().load(loc)` through a handle -/
+def Handle.src (w : World) (s : Disk) (h : Handle) (loc : Nat) : Option Sketch :=
+  match h.storage with
+  | .fs => w.load loc
+  | .rocksdb => s.storage.load loc
+
 /-- `collection().sig_for_dataset(i)` through a handle -/
 def sigFor (w : World) (s : Disk) (h : Handle) (i : Nat) : Option Sketch :=
   match h.manifest[i]? with
   | none => none
-  | some loc => match h.storage with
-    | .fs => w.load loc
-    | .rocksdb => s.storage.load loc
+  | some loc => h.src w s loc
+
+/-- one iteration of the copying loop of `internalize_storage` (`none` = `load(..).unwrap()` panics) -/
+def copyStep (src : Nat → Option Sketch) (acc : Option Store) (loc : Nat) : Option Store :=
+  match acc with
+  | none => none
+  | some st =>
+    match src loc with
+    | none => none
+    | some sig => some (st.put loc sig)
 
 /-- `internalize_storage` on a writable handle: copy every record's signature into STORAGE, switch
 the handle's storage, put the spec.  (The early return `spec() == "rocksdb://"` never fires:
-`RocksDBStorage::spec()` appends the database path.)  `none` = a signature is missing (`unwrap`). -/
+`RocksDBStorage::spec()` appends the database path.)  `none` = a signature is missing (`unwrap`).
+When the handle already reads from STORAGE the code reads from the live column family it is
+writing to; every put re-writes the value that is there, so reading the value from before the call
+(as here) is the same. -/
 def internalize (w : World) (s : Disk) (h : Handle) : Option (Disk × Handle) :=
-  let step (acc : Option Store) (loc : Nat) : Option Store :=
-    match acc with
-    | none => none
-    | some st =>
-      match (match h.storage with | .fs => w.load loc | .rocksdb => s.storage.load loc) with
-      | none => none
-      | some sig => some (st.put loc sig)
-  match h.manifest.foldl step (some s.storage) with
+  match h.manifest.foldl (copyStep (h.src w s)) (some s.storage) with
   | none => none
   | some st => some ({ s with storage := st, spec := some .rocksdb }, { h with storage := .rocksdb })
 
